@@ -45,6 +45,8 @@ pub struct FaultRes {
     pub inconsistent: bool,
     pub leaked_blocks: usize,
     pub follow_counts: [u32; NKINDS],
+    /// (len(), cap(), per-list lengths) read right after the faulted operation returned or unwound
+    pub sizes_after: Option<(u64, u64, Vec<usize>)>,
 }
 
 fn dead_in(r: &Ret) -> bool {
@@ -143,6 +145,11 @@ pub fn execute<S: Subject>(cfg: &Cfg, hist: &[Op], fop: FOp, inject: Option<(FK,
             let dangling = dangling_of(cache, &mut res, "after the faulted operation");
             if dangling {
                 std::mem::forget(c.take());
+            } else if !res.inconsistent {
+                if let Ok(s) = catch_unwind(AssertUnwindSafe(|| cache.snapshot())) {
+                    let lens: Vec<usize> = s.lists.iter().map(|l| l.len()).collect();
+                    res.sizes_after = Some((s.reported[0], s.reported[1], alloc::untracked(|| lens.clone())));
+                }
             }
         }
         if let (Some(cache), Some(f)) = (c.as_mut(), follow) {
@@ -243,7 +250,7 @@ fn menu(tier: Tier) -> Vec<Cfg> {
     };
     let mut raw = mk(Kind::Raw, &[2], 3);
     raw.callback = 2;
-    raw.resize = vec![1, 3];
+    raw.resize = vec![0, 1, 3];
     raw.lean_ops = false;
     v.push(raw);
     v.push(mk(Kind::Slru, &[1, 1], 3));
@@ -302,7 +309,14 @@ struct Stat {
 }
 
 pub fn run(tier: Tier) -> EngineReport {
-    let mut rep = EngineReport { name: "fault-point-enumeration".into(), exhaustive: true, ..Default::default() };
+    run_mode(tier, false)
+}
+
+/// `light`: the first pass only (state x operation x fault point x single follow-up), used by C03, whose
+/// statement ("no sequence of safe API calls ...") covers calls whose user code panics; hazards are memory-
+/// safety failures under either property
+pub fn run_mode(tier: Tier, light: bool) -> EngineReport {
+    let mut rep = EngineReport { name: if light { "fault-point-enumeration (first pass)".into() } else { "fault-point-enumeration".into() }, exhaustive: true, ..Default::default() };
     let mut details = vec![];
     let props: BTreeSet<&'static str> = BTreeSet::new();
     for cfg in menu(tier) {
@@ -440,10 +454,12 @@ pub fn run(tier: Tier) -> EngineReport {
             rep.samples.push(json!({"engine": "faults", "config": cfg.label(), "state_history": format!("{:?}", h), "example": "every op x every Hash/Eq/Clone/Drop/hasher/callback call index x every follow-up op"}));
         }
     }
-    for (cfg, len, cap) in deep_menu(tier) {
-        deep_pass(&cfg, len, cap, &mut rep, &mut details);
+    if !light {
+        for (cfg, len, cap) in deep_menu(tier) {
+            deep_pass(&cfg, len, cap, &mut rep, &mut details);
+        }
+        run_conversions(&mut rep, &mut details);
     }
-    run_conversions(&mut rep, &mut details);
     rep.capped = if rep.exhaustive { None } else { Some("state prefix cap hit in some configuration (see detail)".into()) };
     rep.detail = json!(details);
     rep
@@ -684,6 +700,75 @@ fn callback_run(cfg: &Cfg, hist: &[Op], op: Op, inject: Option<u32>) -> (u32, Ve
     let _ = track::take_errors();
     let _ = take_cb_log();
     (calls, announced, still)
+}
+
+
+/// C01 under unwinding: the capacity bound is not suspended by a panic in user code. Every state of the small
+/// configurations, every operation, every call into user code made to panic; right after the operation
+/// unwound, len() <= cap() (read only when the lists are still well-formed).
+pub fn run_bounds_after_panic(tier: Tier) -> EngineReport {
+    let mut rep = EngineReport { name: "capacity bound after a panic in user code (state x operation x fault point)".into(), exhaustive: true, ..Default::default() };
+    let props: BTreeSet<&'static str> = BTreeSet::new();
+    let mut details = vec![];
+    for cfg in menu(tier) {
+        let d = crate::driver::make_driver(&cfg);
+        let lim = Limits { max_states: if tier == Tier::Quick { 400 } else { 3000 }, collect_histories: true, ..Default::default() };
+        let ex = explore(d.as_ref(), &props, &Wants::default(), &lim);
+        let hists: Vec<Vec<Op>> = ex.histories.iter().take(if tier == Tier::Quick { 120 } else { 1500 }).cloned().collect();
+        if hists.len() < ex.histories.len() || !ex.closed {
+            rep.exhaustive = false;
+        }
+        let fd = fault_driver(&cfg);
+        let fo = fops(&cfg);
+        let results: Vec<(u64, u64, Vec<(Finding, Value)>)> = hists
+            .par_iter()
+            .map(|h| {
+                let (mut execs, mut points) = (0u64, 0u64);
+                let mut out = vec![];
+                for fop in fo.iter().filter(|f| **f != FOp::DropCache) {
+                    let dry = fd.exec(h, *fop, None, None, None);
+                    execs += 1;
+                    for kind in fault::ALL {
+                        for i in 0..dry.counts[kind as usize] {
+                            points += 1;
+                            execs += 1;
+                            let r = fd.exec(h, *fop, Some((kind, i)), None, None);
+                            if let Some((len, cap, _)) = &r.sizes_after {
+                                if len > cap {
+                                    out.push((
+                                        Finding::new(
+                                            "C01",
+                                            "bound_survives_a_panic_in_user_code",
+                                            format!("{:?}/{:?}", cfg.kind, kind),
+                                            format!("len() == {} exceeds cap() == {} after {:?} unwound from a panic injected at {:?} call #{} (history {:?})", len, cap, fop, kind, i, h),
+                                        ),
+                                        json!({"engine": "bounds-after-panic", "cfg": cfg, "history": h, "fop": fop, "inject": [kind, i]}),
+                                    ));
+                                }
+                            }
+                        }
+                    }
+                }
+                (execs, points, out)
+            })
+            .collect();
+        let (mut execs, mut points) = (0u64, 0u64);
+        for (e, p, fs) in results {
+            execs += e;
+            points += p;
+            for (f, c) in fs {
+                rep.violations.push(Extra { finding: f, case: c, count: 1 });
+            }
+        }
+        rep.states += hists.len() as u64;
+        rep.transitions += points;
+        rep.evaluations += execs;
+        rep.distinct_nontrivial += points;
+        details.push(json!({"config": cfg.label(), "states": hists.len(), "operations": fo.len() - 1, "fault_points": points, "executions": execs}));
+    }
+    rep.capped = if rep.exhaustive { None } else { Some("state prefix cap hit in some configuration (see detail)".into()) };
+    rep.detail = json!(details);
+    rep
 }
 
 /// Conversions into a RawLRU (`From<[(K,V);N]>`, `From<Vec>`, `From<&[..]>`, `From<&mut [..]>`, `From<VecDeque>`,
